@@ -6,6 +6,11 @@ SITES = [
     dict(gen="Writes", name="phononWrites", file="abtem/inelastic/phonons.py", emitter="py2lean_writes:emit", select="param_any:atoms", modes=["rat"]),
     dict(gen="Writes", name="blochWrites", file="abtem/bloch/dynamical.py", emitter="py2lean_writes:emit", select="param_any:atoms", modes=["rat"]),
     dict(gen="Writes", name="operatorNames", file="abtem/array.py", emitter="py2lean_writes:emit", select="operator_names", modes=["rat"]),
+    dict(gen="Writes", name="slicingWrites", file="abtem/slicing.py", emitter="py2lean_writes:emit", select="param_any:atoms", modes=["rat"]),
+    dict(gen="Writes", name="chargeDensityWrites", file="abtem/potentials/charge_density.py", emitter="py2lean_writes:emit", select="param_any:atoms", modes=["rat"]),
+    dict(gen="Writes", name="gpawWrites", file="abtem/potentials/gpaw.py", emitter="py2lean_writes:emit", select="param_any:atoms", modes=["rat"]),
+    dict(gen="Writes", name="visualizeWrites", file="abtem/visualize/visualizations.py", emitter="py2lean_writes:emit", select="param_any:atoms", modes=["rat"]),
+    dict(gen="Writes", name="magnetismWrites", file="abtem/magnetism/iam.py", emitter="py2lean_writes:emit", select="param_any:atoms", modes=["rat"]),
     dict(gen="Writes", name="arrayObjectWrites", file="abtem/array.py", emitter="py2lean_writes:emit", select="methods", modes=["rat"]),
 ]
 FINGERPRINTS = {
